@@ -2,10 +2,9 @@
 // renew / rekey / revoke requests through the real embedded authority and writes
 // "<model input line>\t<implementation outcome>".
 //
-// The model is run with epc=1: the *specified* behaviour "no certificate with an empty principal is
-// issued" (what sshCertDefaultValidator does once it checks cert.ValidPrincipals). On a tree without
-// that check the corner/generated cases with "" among the token's principals disagree and are reported
-// through the known finding C14-token-empty-principal.
+// The model is run with epc=1: sshCertDefaultValidator refuses "" among cert.ValidPrincipals (since 58de6d3).
+// On a tree without that check the corner/generated cases with "" among the token's principals disagree
+// (issue / refuse:500 vs refuse:403): that was finding C14-token-empty-principal.
 //
 // Authorities: "both" (user and host SSH signer, bbolt database, SSHPOP provisioner),
 // "bothnodb", "none" (no SSH signer), "user" (user signer only), "host" (host signer only), and
